@@ -260,6 +260,15 @@ fn history(ctx: &Ctx, out: &mut Out, rng: &mut Rng, prop: &str, idx: u64) {
     }
     // one history in eight runs with fault injection on: the deliberately corrupted replies need
     // not verify, but exactly one datagram per accepted request must still reach its sender
+    // health listener on a share of the servers (see Driver::round: a connection arrives between
+    // two process_events calls when the burst is large)
+    if !c02 && idx % 4 == 2 {
+        cfg.health_check_port = Some(crate::procs::free_port(true));
+        if idx % 8 == 2 && idx >= 64 {
+            cfg.batch_size = *rng.pick(&[1u8, 2, 3]);
+        }
+        out.obs("histories_with_health_listener", 1);
+    }
     let greased = !c02 && !stats && idx % 8 == 5;
     if greased {
         cfg.fault_percentage = *rng.pick(&[1u8, 10, 50]);
